@@ -285,10 +285,18 @@ def gen_patterns(rng, files: list[str], dirs: list[str], root_rel: str) -> list[
 
 def gen_case(rng, cid: str, stream: str = "cli") -> dict:
     layout = rng.choice(["norepo_cfg", "norepo_cfg", "norepo_nocfg", "repo_root_cfg", "repo_root_cfg", "repo_root_nocfg",
-                         "repo_above", "repo_above", "repo_above"])
+                         "repo_above", "repo_above", "repo_above",
+                         # the project is a checkout whose `.git` is a FILE: a linked worktree (`git worktree add`) or a
+                         # submodule of the outer repository g; with / without own pytask configuration / with a
+                         # pyproject.toml that has no pytask section
+                         "linked_cfg", "linked_nocfg", "linked_nocfg", "linked_nosection"])
     if stream == "dirnode":
         layout = rng.choice(["norepo_cfg", "repo_root_cfg"])
-    if layout == "repo_above":
+    link_kind = None
+    if layout.startswith("linked"):
+        link_kind = rng.choice(["worktree", "submodule"])
+        git_top = root_rel = "g/w" if link_kind == "worktree" else "g/s"
+    elif layout == "repo_above":
         git_top = "g"
         root_rel = rng.choice(["g/r", "g/r", "g/m/r"])
     elif layout.startswith("repo_root"):
@@ -367,8 +375,18 @@ def gen_case(rng, cid: str, stream: str = "cli") -> dict:
             cfg += "exclude = [" + ", ".join(json.dumps(p) for p in cfg_pats) + "]\n"
         case_files[f"{root_rel}/pyproject.toml"] = cfg
 
+    if layout == "linked_nosection":
+        case_files[f"{root_rel}/pyproject.toml"] = "[tool.black]\nline-length = 88\n"
+
     # --- outside of the project but inside the repository
     outer = []
+    if link_kind:
+        for nm in rng.sample(["README.md", "LICENSE", "other/o.txt"], rng.randint(1, 2)):
+            case_files[f"g/{nm}"] = "outer\n"
+            outer.append(f"g/{nm}")
+        if rng.random() < 0.5:      # the outer directory is a pytask project of its own
+            case_files["g/pyproject.toml"] = "[tool.pytask.ini_options]\n"
+            outer.append("g/pyproject.toml")
     if layout == "repo_above":
         for nm in rng.sample(["README.md", "LICENSE", "other/o.txt", "m/side.txt"], rng.randint(1, 3)):
             case_files[f"g/{nm}"] = "outer\n"
@@ -389,6 +407,8 @@ def gen_case(rng, cid: str, stream: str = "cli") -> dict:
         staged = [c for c in rest if rng.random() < 0.25]
         modify = {c: "changed after commit\n" for c in tracked if rng.random() < 0.1 and not c.endswith((".py", ".toml"))}
         git = {"top": git_top, "tracked": tracked, "staged": staged, "modify_after": modify}
+        if link_kind:
+            git.update({"kind": link_kind, "outer": "g", "outer_tracked": [o for o in outer if rng.random() < 0.5]})
 
     # --- flags and paths
     args = []
@@ -541,6 +561,8 @@ def forbidden_categories(case: dict, obs: dict, snap: dict[str, str], roots: lis
     cats["declared-node"] = set(declared_nodes(case, roots))
     cats["config"] = {f"{root}/pyproject.toml"} if case["has_cfg"] else set()
     cats["git-tracked"] = set(obs.get("git_ls", []))
+    # the `.git` FILE of a linked worktree / submodule is the checkout's connection to its repository
+    cats["git-link-file"] = {f"{case['git']['top']}/.git"} if case["git"] and snap.get(f"{case['git']['top']}/.git", "d") != "d" else set()
     cats["pytask-dir"] = {p for p in snap if p.startswith(f"{root}/.pytask/")}
     ex = set()
     pats = [p.replace("{W}", V) for p in spec_patterns(case)]
@@ -641,6 +663,20 @@ def judge(ctx, case: dict, obs: dict, line_sink: list | None = None) -> None:
         return
     second_failed = second["exit"] != 0     # the dry-run listing is still judged; the removal is only bounded from above
 
+    # --- the project root: the model takes it as an input (expected from the layout). pytask creates `<root>/.pytask/.gitignore`
+    #     at configuration time, which shows where the real code put the root; the model's `findRoot` (built from the stop rules
+    #     the translator reads in config_utils.find_project_root_and_config) is asked as well.
+    made = sorted(p[:-len("/.pytask/.gitignore")] for p in s1 if p.endswith("/.pytask/.gitignore") and p not in s0)
+    if made != [case["root"]]:
+        ctx.disagreement(f"root-differs: pytask configured the project root(s) {made}, the layout {case['layout']} makes it "
+                         f"{case['root']!r}", rp)
+    if ctx.use_model and line_sink is not None:
+        common = os.path.commonpath(["/" + r for r in roots]).lstrip("/") if case["path_rels"] is not None else case["cwd"]
+        sect = [f for f, t in case["files"].items() if f.endswith("/pyproject.toml") and "[tool.pytask.ini_options]" in t]
+        rline = " ".join(["clean.root", "base=/v", "tree=" + tree_tokens({"ws": "d", **{f"ws/{k}": v for k, v in s0.items()}}, "ws"),
+                          "common=" + enc_path(f"{V}/{common}"), "sect=" + ",".join(enc_path(f"{V}/{x}") for x in sect)])
+        line_sink.append(("root", case, rline, case["root"], f"{case['root']}/pyproject.toml" if case["has_cfg"] else None))
+
     # --- oracle 2: dry-run removes / changes nothing (checked first: everything else is read off the dry-run listing)
     for p, k in s0.items():
         if p not in s1:
@@ -737,7 +773,18 @@ def compare_model(ctx, pending: list) -> None:
     if not pending:
         return
     answers = ctx.driver().batch([p[2] for p in pending])
-    for (case, obs, line, listed, s2), ans in zip(pending, answers):
+    for item, ans in zip(pending, answers):
+        if item[0] == "root":
+            _, case, _, want_root, want_cfg = item
+            a = parse_answer(ans)
+            got_root = dec(a.get("root", "?"))[len(V) + 1:]
+            got_cfg = None if a.get("config", "-") == "-" else dec(a["config"])[len(V) + 1:]
+            ctx.traces_validated += 1
+            if (got_root, got_cfg) != (want_root, want_cfg):
+                ctx.disagreement(f"model-root-differs: findRoot gives {got_root!r} / {got_cfg!r}, the layout {case['layout']} makes it "
+                                 f"{want_root!r} / {want_cfg!r}", {"kind": "cli", "case": case})
+            continue
+        case, obs, line, listed, s2 = item
         rp = {"kind": "cli", "case": case}
         a = parse_answer(ans)
         if "listed" not in a:
